@@ -389,25 +389,29 @@ func evalBatch(jobs []job, style int) (*Sink, map[int64]string) {
 			errs[jobs[0].key] = "build: " + err.Error()
 			return newSink(), errs
 		}
-		// find the texts the builder refuses one by one
-		s := newSink()
+		// find the texts the builder refuses, one by one; the accepted ones are then built and run TOGETHER again, so that what one
+		// rule's text means is also checked in the company of the others (literals, constants and sub-expressions are pooled)
+		var accepted []job
 		for _, j := range jobs {
-			s1, e1 := evalBatch([]job{j}, style)
-			for k, v := range e1 {
-				errs[k] = v
+			_, e1 := evalBatch([]job{j}, style)
+			if msg, refused := e1[j.key]; refused && strings.HasPrefix(msg, "build: ") {
+				errs[j.key] = msg
+			} else {
+				accepted = append(accepted, j)
 			}
-			for k, v := range s1.I {
-				s.I[k] = v
+		}
+		if len(accepted) == len(jobs) {
+			for _, j := range jobs {
+				errs[j.key] = "build (each rule is accepted alone, not together): " + err.Error()
 			}
-			for k, v := range s1.R {
-				s.R[k] = v
-			}
-			for k, v := range s1.B {
-				s.B[k] = v
-			}
-			for k, v := range s1.S {
-				s.S[k] = v
-			}
+			return newSink(), errs
+		}
+		if len(accepted) == 0 {
+			return newSink(), errs
+		}
+		s, e2 := evalBatch(accepted, style)
+		for k, v := range e2 {
+			errs[k] = v
 		}
 		return s, errs
 	}
@@ -504,7 +508,8 @@ func cmdExprReplay(args []string) {
 			return
 		}
 		s, errs := evalBatch(jobs, style)
-		for _, j := range jobs {
+		withCompany := 0
+		for ji, j := range jobs {
 			evals++
 			got := ""
 			ok := false
@@ -561,6 +566,17 @@ func cmdExprReplay(args []string) {
 				rec := J{"line": j.raw, "fam": j.c.Fam, "route": j.route, "text": j.text, "want": j.want, "got": got, "amp": j.c.Amp}
 				if j.c.Amp && j.c.ImplWant != nil {
 					rec["implWant"] = j.c.ImplWant
+				}
+				if !strings.HasPrefix(got, "error: build") && len(jobs) > 1 && withCompany < 3 {
+					// what a text means may have been changed by the company it was built in: the cases built before it travel along
+					withCompany++
+					company := []json.RawMessage{}
+					for _, o := range jobs[:ji+1] {
+						if len(company) == 0 || !bytes.Equal(company[len(company)-1], o.raw) {
+							company = append(company, o.raw)
+						}
+					}
+					rec["company"] = company
 				}
 				b, _ := json.Marshal(rec)
 				w.Write(b)
